@@ -252,11 +252,16 @@ async fn main(plan: Plan) -> Outcome {
     }
     let preferred_dc = format!("dc{}", plan.preferred_dc);
     let mut lb = DefaultPolicy::builder().token_aware(true).permit_dc_failover(plan.failover);
-    lb = match plan.preference {
-        1 => lb.prefer_datacenter(preferred_dc.clone()),
-        2 => lb.prefer_datacenter_and_rack(preferred_dc.clone(), "r0".into()),
-        _ => lb,
-    };
+    // The location preference is given to the policy or (1 in 3) to the session, from
+    // which every request's routing information inherits it.
+    let session_level_pref = plan.preference != 0 && tape::chance("c12:session_level_pref", 1, 3);
+    if !session_level_pref {
+        lb = match plan.preference {
+            1 => lb.prefer_datacenter(preferred_dc.clone()),
+            2 => lb.prefer_datacenter_and_rack(preferred_dc.clone(), "r0".into()),
+            _ => lb,
+        };
+    }
     let profile = ExecutionProfile::builder()
         .request_timeout(None)
         .retry_policy(Arc::new(FallthroughRetryPolicy))
@@ -269,6 +274,11 @@ async fn main(plan: Plan) -> Outcome {
         disallow_shard_aware_port: false,
         profile: Some(profile),
         fetch_schema: true,
+        prefer: if session_level_pref {
+            Some((preferred_dc.clone(), if plan.preference == 2 { Some("r0".to_string()) } else { None }))
+        } else {
+            None
+        },
         ..SessionCfg::default()
     };
     let session = match client::build_session(&cfg).await {
@@ -367,6 +377,29 @@ async fn main(plan: Plan) -> Outcome {
             }
         }
         let p = &prepared[which].1;
+        // 1 in 4 executions go through the paging iterator (its worker builds the routing
+        // information of every page request itself).
+        if tape::chance("c12:via_iter", 1, 4) {
+            use futures::StreamExt;
+            let pager = match which % 3 {
+                0 => session.execute_iter(p.clone(), (a, m as i64)).await,
+                1 => session.execute_iter(p.clone(), (m as i64, b.as_str(), a)).await,
+                _ => session.execute_iter(p.clone(), (c, m as i64, a, b.as_str())).await,
+            };
+            if let Ok(pager) = pager {
+                if let Ok(mut rs) = pager.rows_stream::<(i64,)>() {
+                    while let Some(r) = rs.next().await {
+                        if let Ok((v,)) = r {
+                            if v != m as i64 {
+                                out.violation("c12.attribution", format!("paged request with marker {m} received row {v}"));
+                            }
+                        }
+                    }
+                }
+            }
+            subs.push(Sub { marker: m, connected });
+            continue;
+        }
         let res = match which % 3 {
             0 => session.execute_unpaged(p, (a, m as i64)).await,
             1 => session.execute_unpaged(p, (m as i64, b.as_str(), a)).await,
